@@ -48,7 +48,7 @@ func TestVerifC17(t *testing.T) {
 		Rule: "each case: one feature kind, page size 1..7 (or larger than the set), 0..14 initially registered items with names sharing prefixes / unicode; a manual traversal during which, between any two page fetches, items are added, removed or replaced (p=1/2 per gap) and hostile cursors are sent (p=1/3 per gap); " +
 			"then, at rest, a second manual traversal, the client iterator from the start and from every cursor issued. non-trivial: a traversal of >=2 pages with >=1 mutation between pages. distinct = distinct (kind, page size, initial set, mutation log)",
 		MinNontrivial: 100,
-		Assumptions: []string{"a tampered cursor that still decodes to a well-formed token is an (arbitrary but) valid cursor: a page or -32602 are both acceptable for it; clearly malformed cursors must yield -32602"},
+		Assumptions:   []string{"a tampered cursor that still decodes to a well-formed token is an (arbitrary but) valid cursor: a page or -32602 are both acceptable for it; clearly malformed cursors must yield -32602"},
 	}
 	vh.Run(t, cfg, func(c *vh.Case) {
 		c.Bubble("", func() { runC17(c) })
@@ -80,7 +80,9 @@ func runC17(c *vh.Case) {
 				return &mcp.CallToolResult{}, nil
 			})
 		case "prompts":
-			server.AddPrompt(&mcp.Prompt{Name: name}, func(context.Context, *mcp.GetPromptRequest) (*mcp.GetPromptResult, error) { return &mcp.GetPromptResult{}, nil })
+			server.AddPrompt(&mcp.Prompt{Name: name}, func(context.Context, *mcp.GetPromptRequest) (*mcp.GetPromptResult, error) {
+				return &mcp.GetPromptResult{}, nil
+			})
 		case "resources":
 			server.AddResource(&mcp.Resource{URI: idOf(name), Name: name}, func(context.Context, *mcp.ReadResourceRequest) (*mcp.ReadResourceResult, error) {
 				return &mcp.ReadResourceResult{}, nil
